@@ -28,8 +28,13 @@ def design(tier, seed):
     cfg = 'Compress_quick.cfg' if tier == 'quick' else 'Compress.cfg'
     r2 = tlc.run_model('Compress', cfg, workers=16, tag='C08-compress', xmx='8g')
     tlc.cleanup(r2['workdir'])
-    return {'states': r['distinct'] + r2['distinct'], 'transitions': r['generated'] + r2['generated'],
-            'runs': [f'ArithLemmas (bit-sequence add/shift/mul/compare/sqrt = integer arithmetic, all a,b < 32): {r["distinct"]} states, {r["wall_s"]:.1f}s',
+    r3 = tlc.run_model('Karatsuba', 'Karatsuba.cfg', workers=16, tag='C08-karatsuba', xmx='4g')
+    tlc.cleanup(r3['workdir'])
+    return {'states': r['distinct'] + r2['distinct'] + r3['distinct'], 'transitions': r['generated'] + r2['generated'] + r3['generated'],
+            'runs': [f'Karatsuba (number-level transcription of the Karatsuba multipliers with the recursion threshold as a parameter: split, padding, '
+                     f'recursion rule incl. the n = T-2 exception, modular subtraction, widths of the shifted additions, truncation - exact product and no '
+                     f'overflow of any intermediate width for all widths <= 7, all operand values, thresholds 4..7): {r3["distinct"]} states, {r3["wall_s"]:.1f}s',
+                     f'ArithLemmas (bit-sequence add/shift/mul/compare/sqrt = integer arithmetic, all a,b < 32): {r["distinct"]} states, {r["wall_s"]:.1f}s',
                      f'Compress ({cfg}: the column-compression machine behind the Dadda / Wallace / alternative / 2^k-1 multipliers under EVERY schedule of '
                      f'full and half adders keeps sum(live bits * 2^weight) = a * b on all operand values, carries beyond the result width are constant '
                      f'zero, every terminal state is the binary product): {r2["distinct"]} states, {r2["wall_s"]:.1f}s']}
